@@ -483,6 +483,15 @@ func ClassifyRace(blk string) (sig string, isLib bool) {
 	return strings.Join(tops, " | "), isLib
 }
 
+var goroutineHdr = regexp.MustCompile(`^goroutine \d+ \[([^\],]+).*\]:$`)
+
+func normGoroutine(h string) string {
+	if m := goroutineHdr.FindStringSubmatch(h); m != nil {
+		return "goroutine [" + m[1] + "]"
+	}
+	return h
+}
+
 // ClassifyHang inspects all goroutine stacks of this process: a goroutine with
 // library frames whose innermost non-runtime frame is library code (not the
 // transport's Read and not harness callback code) is blocked or spinning
@@ -506,12 +515,13 @@ func ClassifyHang() (dump string, libBlocked []string) {
 			if strings.HasPrefix(l, "runtime.") || strings.HasPrefix(l, "sync.") || strings.HasPrefix(l, "internal/") || strings.HasPrefix(l, "sync/atomic.") || strings.HasPrefix(l, "time.") {
 				continue
 			}
-			if strings.Contains(l, libPath) {
+			if strings.Contains(l, libPath) && !strings.Contains(l, "(*Server).Serve.func1") {
+				// (Serve.func1 is the listener-closing helper: it waits for Close by design)
 				fn := l
 				if k := strings.LastIndex(fn, "("); k > 0 {
 					fn = fn[:k]
 				}
-				libBlocked = append(libBlocked, lines[0]+" in "+fn)
+				libBlocked = append(libBlocked, normGoroutine(lines[0])+" in "+fn)
 			}
 			break
 		}
